@@ -31,6 +31,7 @@ import (
 	"runtime"
 	"strconv"
 	"sync"
+	"sync/atomic"
 	"testing"
 	"time"
 )
@@ -60,6 +61,7 @@ type vtEnd struct {
 	Hs   bool   `json:"hs"`   // handshake completed at this end
 	Byte bool   `json:"byte"` // application byte sent AND the other side's byte received at this end
 	Err  string `json:"err"`
+	Sent bool   `json:"sent"` // peer end only: the raw peer presented a certificate in the handshake
 
 	timedOut bool // a vtIOTimeout deadline fired at this end (harness trouble, reported in Note)
 }
@@ -240,26 +242,36 @@ func vtVersion(c *tls.Config, ver string) {
 	}
 }
 
-// peerClient: the raw client that connects to a server-role endpoint of the proxy.
-func (p *vtPKI) peerClient(cred vtCred) *tls.Config {
-	c := &tls.Config{InsecureSkipVerify: true}
+// peerClient: the raw client that connects to a server-role endpoint of the proxy.  sent reports whether it presented
+// its certificate (the server asked for one and the send mode allowed it).
+func (p *vtPKI) peerClient(cred vtCred) (c *tls.Config, sent *atomic.Bool) {
+	c, sent = &tls.Config{InsecureSkipVerify: true}, new(atomic.Bool)
 	vtVersion(c, cred.Ver)
 	cert, ok := p.peer[cred.Class]
 	if !ok {
 		panic("unknown credential class " + cred.Class)
 	}
 	if cert == nil {
-		return c
+		return
 	}
 	switch cred.Send {
 	case "always": // presents its certificate whatever certificate_authorities the server sent
-		c.GetClientCertificate = func(*tls.CertificateRequestInfo) (*tls.Certificate, error) { return cert, nil }
-	case "hint": // stock behaviour: crypto/tls sends it only if its issuer is among the hinted CAs
-		c.Certificates = []tls.Certificate{*cert}
+		c.GetClientCertificate = func(*tls.CertificateRequestInfo) (*tls.Certificate, error) {
+			sent.Store(true)
+			return cert, nil
+		}
+	case "hint": // what a stock crypto/tls client with Certificates = [cert] does: only if the request supports it
+		c.GetClientCertificate = func(cri *tls.CertificateRequestInfo) (*tls.Certificate, error) {
+			if err := cri.SupportsCertificate(cert); err != nil {
+				return new(tls.Certificate), nil
+			}
+			sent.Store(true)
+			return cert, nil
+		}
 	default:
 		panic("unknown send mode " + cred.Send)
 	}
-	return c
+	return
 }
 
 // peerServer: the raw server a client-role endpoint of the proxy connects to.
